@@ -92,22 +92,17 @@ def check(col: Collector, tier: str):
                 f"the clear must be emitted for every column that is filled by push_back, i.e. under rep_is_collection(value) and nothing narrower "
                 f"(guards found: {[src(t) + '=' + str(tr) for t, tr in gs]}): a narrower test leaves e.g. vector<vector<>> columns growing from event to event", f.loc)
         # ... and the predicate itself: true for sequences and for collections, false otherwise
-        from sa.core.paths import enumerate_paths
+        # (as a truth table over its isinstance tests: an if chain, one `or`, a tuple of classes all read the same)
+        from sa.core.paths import predicate_table
         ric = repo.function("rep_is_collection")
         prm = ric.node.args.args[0].arg
-        verdicts = []
+        atoms, table = predicate_table(ric.node)
         tested = set()
-        for p in enumerate_paths(ric.node):
-            conds = []
-            for e in p.events:
-                if e.kind == "cond" and isinstance(e.node, ast.Call) and call_name(e.node) == "isinstance" and src(e.node.args[0]) == prm:
-                    kinds = [src(x).split(".")[-1] for x in (e.node.args[1].elts if isinstance(e.node.args[1], ast.Tuple) else [e.node.args[1]])]
-                    tested |= set(kinds)
-                    conds.append((tuple(kinds), e.taken))
-            ret = [e.node.value for e in p.events if e.kind == "return"] if any(e.kind == "return" for e in p.events) else []
-            rv = ret[-1].value if ret and isinstance(ret[-1], ast.Constant) else None
-            verdicts.append((any(t for _, t in conds), rv))
-        okp = bool(verdicts) and tested == {"cpp_sequence", "cpp_collection"} and all(rv is hit for hit, rv in verdicts)
+        for a in atoms:
+            m_ = re.fullmatch(r"isinstance\(" + re.escape(prm) + r", (?:\w+\.)*(\w+)\)", a)
+            tested.add(m_.group(1) if m_ else a)
+        verdicts = sorted((bits, r) for bits, r in table.items())
+        okp = tested == {"cpp_sequence", "cpp_collection"} and all(r is any(bits) for bits, r in table.items())
         col.add("C05.R2", ric.short, "predicate-true-for-sequences-and-collections-only", okp,
                 f"rep_is_collection must return True exactly when the value is a cpp_sequence or a cpp_collection (kinds tested {sorted(tested)}, "
                 f"(any test taken, returned) per path {verdicts}); it decides which columns are filled by push_back and cleared after Fill", ric.loc)
